@@ -414,3 +414,29 @@ class Kernel:
                 faulthandler.dump_traceback(file=sys.stderr)
                 raise HarnessError("harness watchdog: simulation did not end within wall timeout")
         return self.end
+
+
+class wall_alarm:
+    """Context manager (main thread only): raises SpinDetected if the body does not finish within `seconds` of wall time.
+    For code under test that runs outside the kernel (precompute, lowering) and might loop for ever."""
+
+    def __init__(self, seconds):
+        self.seconds = seconds
+        self.on = False
+
+    def __enter__(self):
+        import signal
+        if threading.current_thread() is threading.main_thread():
+            def _alarm(signum, frame):
+                raise SpinDetected()
+            self.old = signal.signal(signal.SIGALRM, _alarm)
+            signal.setitimer(signal.ITIMER_REAL, self.seconds)
+            self.on = True
+        return self
+
+    def __exit__(self, *a):
+        if self.on:
+            import signal
+            signal.setitimer(signal.ITIMER_REAL, 0)
+            signal.signal(signal.SIGALRM, self.old)
+        return False
